@@ -764,6 +764,9 @@ func (e *Exec) equal(a, b Value, t types.Type) *Term {
 		}
 	case *OpaqueV:
 		if y, ok := b.(*OpaqueV); ok {
+			if x.Tag == "hash" && y.Tag == "hash" {
+				return c.Eq(x.Data.(*Term), y.Data.(*Term))
+			}
 			return c.Bool(x == y)
 		}
 	}
